@@ -12,6 +12,7 @@ from fvmon import history
 from fvmon.observe import RC, rc_kind
 
 SPEC = {
+    "anchors": ["fibertree.core.tensor:Tensor.setRoot", "fibertree.core.tensor:Tensor._addFiber", "fibertree.core.rank:Rank.append", "fibertree.core.rank:Rank.pop", "fibertree.core.fiber:Fiber._instantiateDefault", "fibertree.core.iterators:__lshift__", "fibertree.core.tensor:Tensor.__deepcopy__", "fibertree.core.fiber:Fiber._createDefault"],
     "rule": ("case = tensor of depth 2-4 from one of 13 constructors/transforms (empty, fromFiber (free or already "
              "owned root), fromUncompressed, fromRandom, fromYAMLfile, makePopulated, deepcopy, split, swizzle, "
              "flatten-unflatten, swap) + a random history of 5-30 (quick) / 5-100 (thorough) operations over "
